@@ -418,16 +418,18 @@ func (c *compiler) MatchesNode(node *ast.MatchesNode) {
 	// pattern is only valid for the string literal it was compiled from.
 	if s, ok := node.Right.(*ast.StringNode); ok {
 		r := node.Regexp
+		var err error
 		if r == nil || r.String() != s.Value {
-			var err error
 			r, err = regexp.Compile(s.Value)
-			if err != nil {
-				panic(err)
-			}
 		}
-		c.compile(node.Left)
-		c.emit(OpMatchesConst, c.makeConstant(r)...)
-		return
+		// A pattern that is not a regexp (it was not written as a literal,
+		// or the parser would have refused it) fails where it is matched,
+		// at run time, like any other pattern computed by the expression.
+		if err == nil {
+			c.compile(node.Left)
+			c.emit(OpMatchesConst, c.makeConstant(r)...)
+			return
+		}
 	}
 	c.compile(node.Left)
 	c.compile(node.Right)
